@@ -254,8 +254,41 @@ impl Worker for W {
                 if got != xs[a..b].to_vec() {
                     return differs(format!("array.slice {:?} {} {} = {:?}, expected {:?}", xs, a, b, got, &xs[a..b]));
                 }
+                // out-of-range requests must be refused, not answered
+                let (ba, bb) = match rng.below(5) {
+                    0 => (a as i64, (xs.len() + 1 + rng.below(3)) as i64),
+                    1 => ((xs.len() + 1) as i64, (xs.len() + 2) as i64),
+                    2 => (b as i64 + 1, b as i64),
+                    3 => (-1, b as i64),
+                    _ => (a as i64, -1),
+                };
+                let mut f = driver!("slice3", fn(Vec<i64>, i64, i64) -> Vec<i64>);
+                if let Ok(got) = f.call(xs.clone(), ba, bb) {
+                    return differs(format!("array.slice {:?} {} {} (out of range for length {}) is answered with {:?} instead of an error", xs, ba, bb, xs.len(), got));
+                }
+                self.vm = None;
+                let vm = match mk_vm() {
+                    Ok(vm) => vm,
+                    Err(e) => return CaseResult::inconclusive(h, e),
+                };
+                let bad_index = if rng.chance(1, 2) { xs.len() as i64 + rng.below(3) as i64 } else { -1 - rng.below(3) as i64 };
+                let mut f = match vm.get_global::<FunctionRef<fn(Vec<i64>, i64) -> i64>>("c19drv.index1") {
+                    Ok(f) => f,
+                    Err(e) => return CaseResult::inconclusive(h, format!("driver index1: {}", e)),
+                };
+                if let Ok(got) = f.call(xs.clone(), bad_index) {
+                    return differs(format!("array.index {:?} {} (out of range) is answered with {} instead of an error", xs, bad_index, got));
+                }
+                let vm = match mk_vm() {
+                    Ok(vm) => vm,
+                    Err(e) => return CaseResult::inconclusive(h, e),
+                };
+                r.stat("out_of_range_requests_refused", 2);
                 let i = rng.below(xs.len());
-                let mut f = driver!("index1", fn(Vec<i64>, i64) -> i64);
+                let mut f = match vm.get_global::<FunctionRef<fn(Vec<i64>, i64) -> i64>>("c19drv.index1") {
+                    Ok(f) => f,
+                    Err(e) => return CaseResult::inconclusive(h, format!("driver index1: {}", e)),
+                };
                 let got = call!(f.call(xs.clone(), i as i64), "index1");
                 if got != xs[i] {
                     return differs(format!("array.index {:?} {} = {}, expected {}", xs, i, got, xs[i]));
